@@ -11,5 +11,6 @@ CONSTANTS
     MaxFields = 1
     Vias = {"direct"}
     Witness = FALSE
+    ReqPayloads = {}
 VIEW View
 CHECK_DEADLOCK FALSE
